@@ -1597,7 +1597,11 @@ struct Exec
 		else if (kind == "seek_nonseekable") applicable = !t.seekable ;
 		else if (kind == "setstr_read_handle") applicable = t.mode == SFM_READ ;
 		else if (kind == "setstr_bad_type" || kind == "setstr_null" || kind == "setstr_empty") applicable = t.mode != SFM_READ ;
-		else if (kind == "cmd_after_data") applicable = t.mode != SFM_READ && t.wr > 0 && t.fmt && (t.fmt->is_float || t.fmt->is_double) && peak_capable (*t.fmt) ;
+		else if (kind == "cmd_after_data")
+		{	// "after data" means after audio has been handed to the library, not merely a write pointer moved by a seek
+			Digest dd = digest (t) ;
+			applicable = t.mode != SFM_READ && dd.ok && dd.v [DG_HAVE_WRITTEN] != 0 && t.fmt && (t.fmt->is_float || t.fmt->is_double) && peak_capable (*t.fmt) ;
+		}
 		if (!applicable) { r.skipped = true ; return ; }
 		Snap s0 = snap (t) ;
 		int64_t n = op.geti ("n", 4) ; if (n < 1) n = 1 ;
@@ -1784,6 +1788,10 @@ struct Exec
 		// mutators are injected only where the caller asked for "any" commands; their arguments are kept harmless
 		uint8_t *buf = null_data ? nullptr : (uint8_t *) malloc (datasize ? (size_t) datasize : 1) ;
 		if (buf) for (int k = 0 ; k < datasize ; k++) buf [k] = (uint8_t) (mix3 (key, 0x5707, (uint64_t) (k + op.geti ("fill", 0))) % 3) ;		// small values: indices / flags stay plausible
+		// 64-bit frame / byte counts (truncate position, raw start offset): keep the upper six bytes zero. An offset of 10^17 makes the
+		// kernel refuse every later seek (EINVAL beyond s_maxbytes) and the purity clause would then judge queries under failing I/O,
+		// which is C15's subject, not C17's.
+		if (buf && (c.id == SFC_FILE_TRUNCATE || c.id == SFC_SET_RAW_START_OFFSET)) for (int k = 2 ; k < datasize ; k++) buf [k] = 0 ;
 		if (buf && c.id == SFC_FILE_TRUNCATE) { free (buf) ; r.skipped = true ; return ; }
 		Snap s0 ; if (!null_handle) s0 = snap (t) ;
 		r.api = std::string ("storm:") + c.name ;
